@@ -30,7 +30,7 @@ ASSUMPTIONS = [
     "typing.Any inside an annotation (type[Any], type[list[Any]]) is outside the statement and never generated",
     "argument-wise subtyping is only asserted for equal arity",
 ]
-REPORT_COUNTERS = ["calls", "calls_passed_generic", "calls_passed_nested", "calls_any", "two_type_methods_applicable",
+REPORT_COUNTERS = ["calls", "calls_passed_generic", "calls_passed_nested", "calls_any", "calls_passed_generic_with_any_argument", "two_type_methods_applicable",
                    "unique_best_checked", "pos_subtler", "pos_plain_type", "strict_first_posonly", "strict_first_names", "resolve_checked"]
 
 
@@ -38,22 +38,26 @@ def plan(tier):
     n = 1600 if tier == "quick" else 32000
     return {"cases": n, "params": {}, "timeout_s": 900 if tier == "quick" else 3600,
             "min": {"calls": 20_000, "calls_passed_nested": 1_000, "two_type_methods_applicable": 500,
-                    "pos_subtler": 100, "pos_plain_type": 100, "calls_any": 200}}
+                    "pos_subtler": 100, "pos_plain_type": 100, "calls_any": 200,
+                    "calls_passed_generic_with_any_argument": 300}}
 
 
-def _gen_alias(rng, classes, depth=0):
+def _gen_alias(rng, classes, depth=0, any_ok=False):
+    """any_ok: the alias is a *passed* value - typing.Any may then stand as an argument of a generic"""
     r = rng.random()
+    if any_ok and depth >= 1 and rng.random() < 0.2:
+        return "Any"
     if r < 0.45 or depth >= 2:
         return rng.choice(classes)
     if r < 0.7:
-        return ["G", "list", _gen_alias(rng, classes, depth + 1)]
+        return ["G", "list", _gen_alias(rng, classes, depth + 1, any_ok)]
     if r < 0.85:
-        return ["G", "dict", _gen_alias(rng, classes, depth + 1), _gen_alias(rng, classes, depth + 1)]
+        return ["G", "dict", _gen_alias(rng, classes, depth + 1, any_ok), _gen_alias(rng, classes, depth + 1, any_ok)]
     if r < 0.90:
-        return ["G", "Sequence", _gen_alias(rng, classes, depth + 1)]
+        return ["G", "Sequence", _gen_alias(rng, classes, depth + 1, any_ok)]
     if r < 0.96:
-        return ["G", "tuple", *[_gen_alias(rng, classes, depth + 1) for _ in range(rng.choice([1, 2, 2, 3]))]]
-    return ["G", "set", _gen_alias(rng, classes, depth + 1)]
+        return ["G", "tuple", *[_gen_alias(rng, classes, depth + 1, any_ok) for _ in range(rng.choice([1, 2, 2, 3]))]]
+    return ["G", "set", _gen_alias(rng, classes, depth + 1, any_ok)]
 
 
 SPECIAL = ("Shape", "HasFly", "Hashable")
@@ -95,7 +99,7 @@ def gen_case(rng, params, idx):
         for p in (0.8, 0.3):
             r = rng.random()
             if r < p * 0.92:
-                args.append(["c", _gen_alias(rng, classes)])
+                args.append(["c", _gen_alias(rng, classes, any_ok=True)])
             elif r < p:
                 args.append(["any"])
             else:
@@ -164,6 +168,8 @@ def check_case(spec, res):
                 res.count("calls_passed_generic")
                 if any(isinstance(x, list) for x in a[1][2:]):
                     res.count("calls_passed_nested")
+                if "'Any'" in repr(a[1]):
+                    res.count("calls_passed_generic_with_any_argument")
         app = [m for m in spec["methods"]
                if all(_param_accepts(p["t"], env, a, v) for p, a, v in zip(m["pos"], args, vals))]
         app_ids = [m["mid"] for m in app]
